@@ -403,8 +403,17 @@ func vfRunC04Storm(ctx *vfCtx, c vfCaseC04Storm) {
 		vfEndSession(ctx, "C04/storm/handshake", s, baseline)
 		return
 	}
-	fr, e1 := s.c.Open("/file")
-	fw, e2 := s.c.OpenFile("/victim", os.O_RDWR)
+	// the cut may already fall into the two opens: they are calls like any other and must not hang either
+	var fr, fw *sftp.File
+	var e1, e2 error
+	dOpen, _ := vfCall(func() (string, error) {
+		fr, e1 = s.c.Open("/file")
+		fw, e2 = s.c.OpenFile("/victim", os.O_RDWR)
+		return "", nil
+	})
+	if !vfAwait(ctx, dOpen, "opens") {
+		ctx.Failf("C04/storm/hang", "an Open during the connection loss never returns\n%s", vfDumpRelevant())
+	}
 	mp := c.Opts.MaxPacket
 	type bad struct{ key, msg string }
 	bads := make(chan bad, 64)
